@@ -70,7 +70,7 @@ let timer_case (line : string) : string =
                (Printf.sprintf "f%d,%d,%s,%s,%s,%s,%s" (int_of_nat i) (int_of_nat cb)
                   (string_of_z nw) (string_of_z due) (string_of_z sid) (string_of_z at) (string_of_z req))
          | EPass c -> Buffer.add_string buf ("p" ^ string_of_z c)
-         | EEntry (r, d, a) -> Buffer.add_string buf (Printf.sprintf "e%s,%s,%s,%d" (string_of_z r) (string_of_z r) (string_of_z d) (if a then 1 else 0))
+         | EEntry (r, d, a, c) -> Buffer.add_string buf (Printf.sprintf "e%s,%s,%s,%d,%d" (string_of_z r) (string_of_z r) (string_of_z d) (if a then 1 else 0) (if c then 1 else 0))
          | EActive l ->
              Buffer.add_char buf 'a';
              List.iter (fun b -> Buffer.add_char buf (if b then '1' else '0')) l);
